@@ -32,7 +32,9 @@ def audit(s: Scenario):
         if not tr.closing:
             return ("a transport is left open by a closed connection", None)
     for sk in w.socks:
-        if not sk.closed:
+        # a socket whose hand-over raced with a cancellation never reached the connection (the
+        # awaiting task was cancelled with the result in flight): not the connection's to close
+        if sk.owned and not sk.closed:
             return ("a socket is left open by a closed connection", None)
     live = w.loop.live_timers()
     if live:
